@@ -500,11 +500,15 @@ type GramCfg struct {
 }
 
 func RandGram(r *rand.Rand, cfg GramCfg) *Gram {
-	switch r.Intn(10) {
+	switch r.Intn(12) {
 	case 0:
 		return exprGram(r, cfg)
 	case 1:
 		return listGram(r, cfg)
+	case 2:
+		if r.Intn(3) == 0 {
+			return wideGram(r, cfg)
+		}
 	}
 	g := &Gram{Shape: "random"}
 	g.NT = 2 + r.Intn(cfg.MaxNT) // at least one real terminal
@@ -625,6 +629,32 @@ func listGram(r *rand.Rand, cfg GramCfg) *Gram {
 		g.Rules = append(g.Rules, GRule{LHS: e, RHS: nil})
 	}
 	g.finish(r, cfg)
+	return g
+}
+
+// wideGram: more than 16 states share a transition on one nonterminal and one terminal, so that the
+// runtime's gotoState takes its binary-search branch (max-min >= 32).
+func wideGram(r *rand.Rand, cfg GramCfg) *Gram {
+	g := &Gram{Shape: "wide"}
+	k := 17 + r.Intn(6)
+	g.NT = 1 + k + 1 // t_1..t_k, z
+	z := k + 1
+	g.NN = 2
+	s, x := g.NT, g.NT+1
+	for i := 1; i <= k; i++ {
+		rhs := []int{i, x}
+		if r.Intn(3) == 0 {
+			rhs = append(rhs, i)
+		}
+		g.Rules = append(g.Rules, GRule{LHS: s, RHS: rhs})
+	}
+	g.Rules = append(g.Rules, GRule{LHS: x, RHS: []int{z}})
+	if r.Intn(2) == 0 {
+		g.Rules = append(g.Rules, GRule{LHS: x, RHS: []int{z, x}})
+	} else {
+		g.Rules = append(g.Rules, GRule{LHS: x, RHS: []int{x, z}})
+	}
+	g.Inputs = []GInput{{Sym: s, Eoi: true}}
 	return g
 }
 
